@@ -8,6 +8,8 @@ T="contract-based deductive verification: WP-style VC generation over go/ssa + S
 claimed={
  "C05": dict(text="Runtime half only: the default error encoder writes exactly one header and one body, the status is the one the response object reports, plain errors become a 500 fault, service errors map through the flag table, decoding-error constructors give 400/415 (lemmas over the table). Declared errors are generated code and are not covered.",
              ref="§3 C05", technique=T),
+ "C11": dict(text="RunDSL: the four phases are global (ghost phase automaton: every WalkSets/prepare/validate/finalize call-site precondition is a barrier obligation), every root registered before the run completes all four phases when nil is returned, finalization never starts on a failed design. The environment (WalkSets callbacks, set runners) and the dependency sort Roots() are assumed contracts; Roots() additionally has a bounded stand-in (all digraphs <= 4 roots x all registration orders), labelled bounded and not counted as proved.",
+             ref="§3 C11", technique=T+"; bounded exhaustive execution for Roots()"),
  "C15": dict(text="Encoder/decoder agreement through the Content-Type header actually set, JSON fall-back, non-nil encoder, request decoder selection and 415 chain, proved for all header/context values against an uninterpreted mime.ParseMediaType with audited axioms.",
              ref="§3 C15", technique=T),
  "C16": dict(text="goa's layer of the router: every value stored by Vars is the captured segment decoded exactly once under its registered name, wildcard rewrite and ResolvePattern are inverse (string-theory lemma), Handle registers the rewritten pattern, the not-found handler writes one 404 fault body. chi's dispatch is an assumed contract.",
